@@ -46,3 +46,10 @@ package param
 //@   call setSeparators#1 assert [whole-struct] $0 == iface(fuseParams)
 //@ func PGParamsToEnvVars
 //@   call setSeparators#1 assert [whole-struct] $0 == iface(pgParams)
+
+// ---- the set of characters in use is complete (C21): every rune read from the string ends up in the result
+// (dropping one would let the separator choice pick a character that does occur in a value)
+//@ func stringToUniqRunes
+//@   loop 2 invariant [scan] (runeSeen ==> (exists j int :: 0 <= j && j < len(rv) && rv[j] == ch)) && rangeindex#2 >= 0 - 1
+//@   loop 1 step [read-rune-is-kept] exists j int :: 0 <= j && j < len(rv) && rv[j] == ch
+//@   loop 1 step [append-only] len(rv) >= prev(len(rv)) && (forall j int :: 0 <= j && j < prev(len(rv)) ==> rv[j] == prev(rv[j]))
